@@ -182,6 +182,9 @@ def Ite(c, a, b):
     if isinstance(a, SFloat) or isinstance(b, SFloat):
         a, b = to_float(a), to_float(b)
         dt = a.dtype if a.dtype.itemsize >= b.dtype.itemsize else b.dtype
+        # a branch that is the constant NaN carries no value: keep the other branch's value term free of the case split
+        if a.nan is True: return SFloat(b.v, dt, mk_flag(z3.Or(cz, zb_flag(b.nan))), mk_flag(z3.And(z3.Not(cz), zb_flag(b.pinf))), mk_flag(z3.And(z3.Not(cz), zb_flag(b.ninf))))
+        if b.nan is True: return SFloat(a.v, dt, mk_flag(z3.Or(z3.Not(cz), zb_flag(a.nan))), mk_flag(z3.And(cz, zb_flag(a.pinf))), mk_flag(z3.And(cz, zb_flag(a.ninf))))
         return SFloat(z3.If(cz, a.v, b.v), dt, _flag_ite(cz, a.nan, b.nan), _flag_ite(cz, a.pinf, b.pinf), _flag_ite(cz, a.ninf, b.ninf))
     if isinstance(a, SBV) or isinstance(b, SBV):
         dt = a.dtype if isinstance(a, SBV) else b.dtype
@@ -191,6 +194,7 @@ def Ite(c, a, b):
         return mk_bool(z3.If(cz, zb(a), zb(b)))
     return SInt(z3.If(cz, zi(a), zi(b)))
 
+def zb_flag(f): return z3.BoolVal(f) if isinstance(f, bool) else f
 def _flag_ite(c, a, b):
     if a is False and b is False: return False
     return mk_flag(z3.If(c, zb(a), zb(b)))
@@ -347,12 +351,15 @@ _INTKINDS = 'iu'
 def _w(dt): return 8 * dt.itemsize
 
 class SBV:
-    __slots__ = ('z', 'dtype')
-    def __init__(self, z, dtype):
-        self.z = z; self.dtype = _rnp.dtype(dtype)
+    """machine integer.  `ival` (optional z3 Int) is its exact mathematical value when that is known without wrap-around:
+    arithmetic on such values stays mathematical and records a no-overflow side obligation on the current path."""
+    __slots__ = ('z', 'dtype', 'ival')
+    def __init__(self, z, dtype, ival=None):
+        self.z = z; self.dtype = _rnp.dtype(dtype); self.ival = ival
     @property
     def signed(self): return self.dtype.kind == 'i'
     def as_int(self):
+        if self.ival is not None: return SInt(self.ival)
         return SInt(z3.BV2Int(self.z, is_signed=self.signed))
     def __index__(self): return self.as_int().__index__()
     def __int__(self): return self.__index__()
@@ -416,13 +423,17 @@ def cast(s, dt):
     if isinstance(s, SBV):
         w0 = _w(s.dtype)
         if s.dtype == dt: return s
-        if w == w0: return SBV(s.z, dt)
-        if w > w0: return SBV(z3.simplify((z3.SignExt if s.signed else z3.ZeroExt)(w - w0, s.z)), dt)
-        return SBV(z3.simplify(z3.Extract(w - 1, 0, s.z)), dt)
+        iv = s.ival
+        if iv is not None and CUR.path is not None:
+            info = _rnp.iinfo(dt)
+            CUR.path.obligations.append(dict(name='no wrap-around converting %s to %s' % (s.dtype, dt), kind='no-overflow', pc=list(CUR.path.pc), goal=z3.And(iv >= int(info.min), iv <= int(info.max)), meta={}))
+        if w == w0: return SBV(s.z, dt, iv)
+        if w > w0: return SBV(z3.simplify((z3.SignExt if s.signed else z3.ZeroExt)(w - w0, s.z)), dt, iv)
+        return SBV(z3.simplify(z3.Extract(w - 1, 0, s.z)), dt, iv)
     if isinstance(s, (SBool,)): return SBV(z3.If(s.z, z3.BitVecVal(1, w), z3.BitVecVal(0, w)), dt)
     if isinstance(s, (bool, _rnp.bool_)): return bvval(int(s), dt)
     if isinstance(s, (int, _rnp.integer)): return bvval(int(s), dt)
-    if isinstance(s, SInt): return SBV(z3.Int2BV(s.z, w), dt)
+    if isinstance(s, SInt): return SBV(z3.Int2BV(s.z, w), dt, s.z)
     if isinstance(s, SFloat):
         raise NeedsContract('float -> integer cast of a symbolic value')
     if isinstance(s, float): return bvval(int(s), dt)
@@ -481,7 +492,16 @@ def _arith(a, b, op):
         for _ in range(c): r = r * x
     else: raise NotImplementedError(op)
     if z3.is_bv_value(x) and z3.is_bv_value(y): r = z3.simplify(r)
-    return SBV(r, dt)
+    iv = None
+    if op in ('+', '-', '*'):
+        ia = a.ival if isinstance(a, SBV) else (z3.IntVal(int(a)) if isinstance(a, (int, _rnp.integer)) and not isinstance(a, bool) else (a.z if isinstance(a, SInt) else None))
+        ib = b.ival if isinstance(b, SBV) else (z3.IntVal(int(b)) if isinstance(b, (int, _rnp.integer)) and not isinstance(b, bool) else (b.z if isinstance(b, SInt) else None))
+        if ia is not None and ib is not None and (isinstance(a, SBV) and a.ival is not None or isinstance(b, SBV) and b.ival is not None):
+            iv = z3.simplify({'+': ia + ib, '-': ia - ib, '*': ia * ib}[op])
+            info = _rnp.iinfo(dt)
+            if CUR.path is not None:
+                CUR.path.obligations.append(dict(name='no wrap-around in %s arithmetic (%s)' % (dt, op), kind='no-overflow', pc=list(CUR.path.pc), goal=z3.And(iv >= int(info.min), iv <= int(info.max)), meta={}))
+    return SBV(r, dt, iv)
 
 def _py_arith(a, b, op):
     import operator as O
@@ -600,6 +620,16 @@ def realval(x):
         fr = Fraction(x); return z3.RealVal(str(fr))
     return z3.RealVal(int(x))
 
+INTEGRAL_REALS = {}     # ast id of ToInt(v) -> v, for sums of integers kept as reals by the sum normaliser (v is integral by construction)
+def int_from_real_sum(v, dt):
+    """machine integer holding the integral real v (a sum of integers); exact as long as the no-overflow side condition holds"""
+    dt = _rnp.dtype(dt); iv = z3.ToInt(v); INTEGRAL_REALS[iv.get_id()] = (v, iv)
+    return SBV(z3.Int2BV(iv, 8 * dt.itemsize), dt, iv)
+
+def integral_axioms():
+    """sums of integers are integral: ToReal(ToInt(v)) == v for every integer sum produced by the normaliser"""
+    return [z3.ToReal(iv) == v for v, iv in INTEGRAL_REALS.values()]
+
 def to_float(x, dt=None):
     if isinstance(x, SFloat): return x
     import math
@@ -614,7 +644,9 @@ def to_float(x, dt=None):
     if isinstance(x, (bool, _rnp.bool_)): return SFloat(z3.RealVal(int(x)), dt or 'float64')
     if isinstance(x, (int, _rnp.integer)): return SFloat(z3.RealVal(int(x)), dt or 'float64')
     if isinstance(x, SInt): return SFloat(z3.ToReal(x.z), dt or 'float64')
-    if isinstance(x, SBV): return SFloat(z3.ToReal(z3.BV2Int(x.z, is_signed=x.signed)), dt or 'float64')
+    if isinstance(x, SBV):
+        if x.ival is not None and x.ival.get_id() in INTEGRAL_REALS: return SFloat(INTEGRAL_REALS[x.ival.get_id()][0], dt or 'float64')
+        return SFloat(z3.ToReal(x.ival if x.ival is not None else z3.BV2Int(x.z, is_signed=x.signed)), dt or 'float64')
     if isinstance(x, SBool): return SFloat(z3.If(x.z, z3.RealVal(1), z3.RealVal(0)), dt or 'float64')
     raise TypeError('to_float %r' % (x,))
 
@@ -714,13 +746,22 @@ def fsqrt(x):
     nan = Or_flag(x.nan, x.ninf, mk_flag(x.v < 0) if not x.special else mk_flag(z3.And(zb(x.finite()), x.v < 0)))
     return SFloat(s, x.dtype if x.dtype.kind == 'f' else 'float64', nan=nan, pinf=x.pinf, ninf=False)
 
-def sqrt_axioms():
-    """sqrt_(a) >= 0 and sqrt_(a)^2 == a for every argument that occurred with a >= 0"""
-    seen = {}; ax = []
+def sqrt_axioms(pairs=True):
+    """sqrt_(a) >= 0 and sqrt_(a)^2 == a for every argument that occurred with a >= 0, plus their immediate consequences
+    (a > 0 => sqrt_(a) > 0; (sqrt_(a) sqrt_(b))^2 == a b), stated explicitly because nonlinear solvers do not find them quickly"""
+    seen = {}; ax = []; args = []
     for a in SQRT_ARGS:
         if a.get_id() in seen: continue
-        seen[a.get_id()] = 1
-        ax.append(z3.Implies(a >= 0, z3.And(_SQRT(a) >= 0, _SQRT(a) * _SQRT(a) == a)))
+        seen[a.get_id()] = 1; args.append(a)
+        s = _SQRT(a)
+        ax.append(z3.Implies(a >= 0, z3.And(s >= 0, s * s == a)))
+        ax.append(z3.Implies(a > 0, s > 0))
+        ax.append(z3.Implies(a == 0, s == 0))
+    if pairs:
+        for i in range(len(args)):
+            for j in range(i + 1, len(args)):
+                a, b = args[i], args[j]; sa, sb = _SQRT(a), _SQRT(b)
+                ax.append(z3.Implies(z3.And(a >= 0, b >= 0), z3.And((sa * sb) * (sa * sb) == a * b, sa * sb >= 0)))
     return ax
 
 _LOG = z3.Function('ln_', z3.RealSort(), z3.RealSort())
